@@ -1139,3 +1139,176 @@ Proof.
   - eapply Forall_impl; [|exact G]. intros c [W Nm]. rewrite roundtrip_psnp by assumption. rewrite Nm. reflexivity.
   - exact C.
 Qed.
+
+(* ------------------------------------------------------------------ TLV constructors *)
+
+Lemma area_len_fold : forall areas acc,
+  acc + N.of_nat (length (concat (map enc_area areas))) < 256 ->
+  fold_left (fun acc a => (acc + N.of_nat (length a) + 1) mod 256) areas acc =
+  acc + N.of_nat (length (concat (map enc_area areas))).
+Proof.
+  induction areas as [|a areas IH]; intros acc H; cbn [fold_left map concat length] in *; [lia|].
+  rewrite app_length, enc_area_length in *. rewrite N.mod_small by lia. rewrite IH; lia.
+Qed.
+
+Lemma new_area_wf : forall areas, N.of_nat (length (concat (map enc_area areas))) < 256 -> wf_tlv (new_area_tlv areas).
+Proof.
+  intros areas H. unfold new_area_tlv, wf_tlv. cbn [tlv_len]. rewrite area_len_fold by lia.
+  unfold u8. repeat split; lia.
+Qed.
+
+Lemma new_dynhost_wf : forall nm, N.of_nat (length nm) < 256 -> wf_tlv (new_dynhost_tlv nm).
+Proof. intros nm H. unfold new_dynhost_tlv, wf_tlv, u8. cbn [tlv_len]. rewrite N.mod_small by lia. repeat split; lia. Qed.
+
+Lemma new_proto_wf : forall ids, N.of_nat (length ids) < 256 -> wf_tlv (new_proto_tlv ids).
+Proof. intros ids H. unfold new_proto_tlv, wf_tlv, u8. cbn [tlv_len]. rewrite N.mod_small by lia. repeat split; lia. Qed.
+
+Lemma new_ipif_wf : forall addrs, Forall u32 addrs -> 4 * N.of_nat (length addrs) < 256 -> wf_tlv (new_ipif_tlv addrs).
+Proof.
+  intros addrs Ha H. unfold new_ipif_tlv, wf_tlv, u8. cbn [tlv_len]. rewrite N.mod_small by lia.
+  repeat split; try lia. assumption.
+Qed.
+
+Lemma new_entries_wf : forall es, Forall wf_entry es -> 16 * N.of_nat (length es) < 256 -> wf_tlv (new_entries_tlv es).
+Proof. intros es Hw H. apply wf_new_entries_tlv; [lia|assumption]. Qed.
+
+Lemma new_p2padj_wf : forall st ecid, u32 ecid -> wf_tlv (new_p2padj_tlv st ecid).
+Proof. intros st ecid H. unfold new_p2padj_tlv, wf_tlv, u8. cbn [tlv_len]. repeat split; try lia; try assumption. left. repeat split. Qed.
+
+Lemma new_padding_wf : forall len, len < 256 -> wf_tlv (new_padding_tlv len).
+Proof.
+  intros len H. unfold new_padding_tlv, wf_tlv, wf_raw, u8. cbn [tlv_len tlv_type tlv_value kind_of].
+  rewrite repeat_length. repeat split; lia.
+Qed.
+
+Lemma new_terid_wf : forall a, wf_tlv (new_terid_tlv a).
+Proof. intros a. unfold new_terid_tlv, wf_tlv, wf_raw, u8. cbn. repeat split; lia. Qed.
+
+(* a sub-TLV whose length byte says what its Serialize writes *)
+Definition sub_ok (s : subtlv) : Prop :=
+  match s with
+  | SLinkLR _ l _ _ => l = 8
+  | SIPv4 _ l _ => l = 4
+  | SRaw _ l v => l = N.of_nat (length v)
+  end.
+
+Lemma enc_sub_length : forall s, sub_ok s -> N.of_nat (length (enc_sub s)) = sub_len s + 2.
+Proof. intros [ty l a b|ty l a|ty l v] H; cbn in *; subst; cbn; lia. Qed.
+
+Definition nbr_ok (n : extisnbr) : Prop :=
+  len_is (xn_id n) 7 /\ xn_sublen n = N.of_nat (length (concat (map enc_sub (xn_subs n)))).
+
+Lemma extis_nbr_fold : forall subs n, Forall sub_ok subs -> nbr_ok n ->
+  N.of_nat (length (concat (map enc_sub (xn_subs n ++ subs)))) < 256 ->
+  nbr_ok (fold_left extis_nbr_add_sub subs n).
+Proof.
+  induction subs as [|s subs IH]; intros n Hs Hn Hl; [exact Hn|]. inversion Hs; subst.
+  cbn [fold_left]. apply IH; [assumption| |].
+  - destruct Hn as [Hi Hn]. split; [exact Hi|]. unfold extis_nbr_add_sub. cbn [xn_id xn_sublen xn_subs].
+    rewrite map_app, concat_app, app_length. cbn [map concat]. rewrite app_nil_r.
+    rewrite map_app, concat_app, app_length in Hl. cbn [map concat] in Hl. rewrite app_length in Hl.
+    pose proof (enc_sub_length s ltac:(assumption)). rewrite N.mod_small by lia. lia.
+  - unfold extis_nbr_add_sub. cbn [xn_subs]. rewrite <- app_assoc. exact Hl.
+Qed.
+
+Lemma new_extis_nbr_ok : forall id m subs, len_is id 7 -> Forall sub_ok subs ->
+  N.of_nat (length (concat (map enc_sub subs))) < 256 -> nbr_ok (new_extis_nbr id m subs).
+Proof.
+  intros id m subs Hi Hs Hl. unfold new_extis_nbr. apply extis_nbr_fold; [assumption| |exact Hl].
+  split; [exact Hi|reflexivity].
+Qed.
+
+Lemma enc_extisnbr_length : forall n, nbr_ok n -> N.of_nat (length (enc_extisnbr n)) = 11 + xn_sublen n.
+Proof.
+  intros n [Hi Hs]. unfold enc_extisnbr, len_is in *. rewrite !app_length. cbn [length tl be32]. rewrite Hi, Hs. set (L := length (concat (map enc_sub (xn_subs n)))). clearbody L. clear. lia.
+Qed.
+
+Lemma extis_fold : forall ns ty len ns0, Forall nbr_ok ns ->
+  len = N.of_nat (length (concat (map enc_extisnbr ns0))) ->
+  N.of_nat (length (concat (map enc_extisnbr (ns0 ++ ns)))) < 256 ->
+  fold_left extis_add ns (TExtIS ty len ns0) =
+  TExtIS ty (N.of_nat (length (concat (map enc_extisnbr (ns0 ++ ns))))) (ns0 ++ ns).
+Proof.
+  induction ns as [|n ns IH]; intros ty len ns0 Hn Hl Hb.
+  - cbn [fold_left]. rewrite app_nil_r. subst len. reflexivity.
+  - inversion Hn; subst. cbn [fold_left extis_add].
+    replace (ns0 ++ n :: ns) with ((ns0 ++ [n]) ++ ns) in * by (rewrite <- app_assoc; reflexivity).
+    apply IH; [assumption| |exact Hb].
+    rewrite map_app, concat_app, app_length. cbn [map concat]. rewrite app_nil_r.
+    rewrite !map_app, !concat_app, !app_length in Hb. cbn [map concat] in Hb. rewrite app_nil_r in Hb.
+    pose proof (enc_extisnbr_length n ltac:(assumption)). rewrite N.mod_small by lia. lia.
+Qed.
+
+Lemma new_extis_wf : forall ns, Forall nbr_ok ns ->
+  N.of_nat (length (concat (map enc_extisnbr ns))) < 256 -> wf_tlv (new_extis_tlv ns).
+Proof.
+  intros ns Hn Hb. unfold new_extis_tlv. rewrite (extis_fold ns 22 0 []); [|assumption|reflexivity|exact Hb].
+  cbn [app]. unfold wf_tlv, wf_raw, u8. cbn [tlv_len tlv_type tlv_value kind_of]. repeat split; lia.
+Qed.
+
+Lemma bytes_in_addr_le : forall p, bytes_in_addr p <= 8.
+Proof. intros. unfold bytes_in_addr. lia. Qed.
+
+Lemma enc_extip_length : forall m p a, N.of_nat (length (enc_extip (mkExtIp m p a []))) = 5 + bytes_in_addr p.
+Proof.
+  intros. unfold enc_extip. cbn [xp_metric xp_udpfx xp_addr xp_subs map concat]. rewrite app_nil_r.
+  rewrite app_length. cbn [length be32]. rewrite firstn_length.
+  replace (length (be32 a ++ [0; 0; 0; 0])) with 8%nat by reflexivity.
+  pose proof (bytes_in_addr_le p). lia.
+Qed.
+
+Definition plain_reach (r : extipreach) : Prop := xp_subs r = [].
+
+Lemma extip_fold : forall rs ty len rs0, Forall plain_reach rs ->
+  len = N.of_nat (length (concat (map enc_extip rs0))) ->
+  N.of_nat (length (concat (map enc_extip (rs0 ++ rs)))) < 256 ->
+  fold_left extip_add rs (TExtIP ty len rs0) =
+  TExtIP ty (N.of_nat (length (concat (map enc_extip (rs0 ++ rs))))) (rs0 ++ rs).
+Proof.
+  induction rs as [|r rs IH]; intros ty len rs0 Hp Hl Hb.
+  - cbn [fold_left]. rewrite app_nil_r. subst len. reflexivity.
+  - inversion Hp as [|? ? Hr Hrs]; subst. cbn [fold_left extip_add].
+    replace (rs0 ++ r :: rs) with ((rs0 ++ [r]) ++ rs) in * by (rewrite <- app_assoc; reflexivity).
+    apply IH; [assumption| |exact Hb].
+    rewrite map_app, concat_app, app_length. cbn [map concat]. rewrite app_nil_r.
+    rewrite !map_app, !concat_app, !app_length in Hb. cbn [map concat] in Hb. rewrite app_nil_r in Hb.
+    destruct r as [m p a subs]. unfold plain_reach in Hr. cbn in Hr. subst subs.
+    pose proof (enc_extip_length m p a). cbn [xp_udpfx]. rewrite N.mod_small by lia. lia.
+Qed.
+
+Lemma new_extip_wf : forall rs,
+  N.of_nat (length (concat (map enc_extip (map (fun r => match r with (m, p, a) => mkExtIp m p a [] end) rs)))) < 256 ->
+  wf_tlv (new_extip_tlv rs).
+Proof.
+  intros rs Hb. unfold new_extip_tlv. rewrite (extip_fold _ 135 0 []); [| |reflexivity|exact Hb].
+  - cbn [app]. unfold wf_tlv, wf_raw, u8. cbn [tlv_len tlv_type tlv_value kind_of]. repeat split; lia.
+  - apply Forall_forall. intros r Hr. apply in_map_iff in Hr. destruct Hr as ([[m p] a] & <- & _). reflexivity.
+Qed.
+
+(* every TLV constructor returns a well-formed TLV as long as its content fits into 255 value bytes *)
+Theorem ctors_wf :
+  (forall areas, N.of_nat (length (concat (map enc_area areas))) < 256 -> wf_tlv (new_area_tlv areas)) /\
+  (forall nm, N.of_nat (length nm) < 256 -> wf_tlv (new_dynhost_tlv nm)) /\
+  (forall ids, N.of_nat (length ids) < 256 -> wf_tlv (new_proto_tlv ids)) /\
+  (forall addrs, Forall u32 addrs -> 4 * N.of_nat (length addrs) < 256 -> wf_tlv (new_ipif_tlv addrs)) /\
+  (forall es, Forall wf_entry es -> 16 * N.of_nat (length es) < 256 -> wf_tlv (new_entries_tlv es)) /\
+  (forall st ecid, u32 ecid -> wf_tlv (new_p2padj_tlv st ecid)) /\
+  (forall len, len < 256 -> wf_tlv (new_padding_tlv len)) /\
+  (forall a, wf_tlv (new_terid_tlv a)) /\
+  (forall specs : list (list N * N * list subtlv),
+     Forall (fun s => match s with (id, _, subs) =>
+       len_is id 7 /\ Forall sub_ok subs /\ N.of_nat (length (concat (map enc_sub subs))) < 256 end) specs ->
+     let ns := map (fun s => match s with (id, m, subs) => new_extis_nbr id m subs end) specs in
+     N.of_nat (length (concat (map enc_extisnbr ns))) < 256 -> wf_tlv (new_extis_tlv ns)) /\
+  (forall rs : list (N * N * N),
+     N.of_nat (length (concat (map enc_extip (map (fun r => match r with (m, p, a) => mkExtIp m p a [] end) rs)))) < 256 ->
+     wf_tlv (new_extip_tlv rs)).
+Proof.
+  split; [exact new_area_wf|]. split; [exact new_dynhost_wf|]. split; [exact new_proto_wf|].
+  split; [exact new_ipif_wf|]. split; [exact new_entries_wf|]. split; [exact new_p2padj_wf|].
+  split; [exact new_padding_wf|]. split; [exact new_terid_wf|]. split; [|exact new_extip_wf].
+  intros specs Hs ns Hb. apply new_extis_wf; [|exact Hb]. subst ns.
+  apply Forall_forall. intros n Hn. apply in_map_iff in Hn. destruct Hn as ([[id m] subs] & <- & Hin).
+  eapply Forall_forall in Hs; [|exact Hin]. cbn in Hs. destruct Hs as (H1 & H2 & H3).
+  apply new_extis_nbr_ok; assumption.
+Qed.
